@@ -1190,8 +1190,9 @@ def _run(ck, rng, thorough, klass, tk, systems, fresh, chk, coq_ok):
     T["histories"] = time.time()
     trees = parallel(lambda op: explore(EXH_ALPHABET, depth, [op]), EXH_ALPHABET)
     depth_b = 6 if thorough else 5
-    roots_b = [[a, b] for a in BASE_ALPHABET for b in BASE_ALPHABET]
-    trees_b = parallel(lambda pre: explore(BASE_ALPHABET, depth_b, pre), roots_b)
+    alpha_b = BASE_ALPHABET if thorough else [o for o in BASE_ALPHABET if not (o[0] == "base" and o[2] is not None)]
+    roots_b = [[a, b] for a in alpha_b for b in alpha_b]
+    trees_b = parallel(lambda pre: explore(alpha_b, depth_b, pre), roots_b)
     T["exhaustive"] = time.time()
 
     # ---- 3. the fresh-registry oracle on every step
@@ -1213,13 +1214,13 @@ def _run(ck, rng, thorough, klass, tk, systems, fresh, chk, coq_ok):
     n_general = len(flat)
     for pre, (precs, kids) in zip(roots_b, trees_b):
         p0, p1 = precs
-        if pre[1] == BASE_ALPHABET[0]:
+        if pre[1] == alpha_b[0]:
             flat.append(([pre[0]], p0[1], p0[2], p0[3], p0[4]))
         flat.append((list(pre), p1[1], p1[2], p1[3], p1[4]))
         flatten_tree(list(pre), kids, flat)
     ck.extra["exhaustive_histories"] = len(flat)
-    ck.extra["exhaustive_depth"] = {"12-op alphabet": depth, "6-op base-units alphabet": depth_b}
-    ck.extra["exhaustive_histories_by_alphabet"] = {"12-op alphabet": n_general, "6-op base-units alphabet": len(flat) - n_general}
+    ck.extra["exhaustive_depth"] = {"12-op alphabet": depth, f"{len(alpha_b)}-op base-units alphabet": depth_b}
+    ck.extra["exhaustive_histories_by_alphabet"] = {"12-op alphabet": n_general, f"{len(alpha_b)}-op base-units alphabet": len(flat) - n_general}
     for h, rr, ans, before, qu in flat:
         inner = h[-1][1] if h[-1][0] == "other" else h[-1]
         q = oracle_question(inner, qu)
